@@ -262,11 +262,12 @@ def identsList : List PT → List String
   | p :: ps => idents p ++ identsList ps
 end
 
-/-- identifiers strictly below a node (the node's own entry is not among them) -/
+/-- identifiers of the templates entered through `_create_program` strictly below a node
+(`TimeReversalPulseTemplate` calls `_internal_create_program` of its inner template directly) -/
 def identsBelow : PT → List String
   | .seq _ subs _ _ => identsList subs
-  | .rep _ body .. | .forLoop _ body .. | .mapping _ body .. | .parallel _ body _ | .arith _ body ..
-  | .timeReversal _ body => idents body
+  | .rep _ body .. | .forLoop _ body .. | .mapping _ body .. | .parallel _ body _ | .arith _ body .. => idents body
+  | .timeReversal _ body => identsBelow body
   | _ => []
 
 /-- is the template collapsed by the `to_single_waveform` set `S`? -/
